@@ -36,7 +36,11 @@ def _match(pred, obj) -> bool:
             if cur is None or cur < want["ge"]:
                 return False
         elif isinstance(want, list):
-            if cur not in want:
+            if isinstance(cur, list):
+                # every failing clause of the record must be one the finding explains
+                if not cur or not set(map(str, cur)) <= set(map(str, want)):
+                    return False
+            elif cur not in want:
                 return False
         elif cur != want:
             return False
